@@ -97,6 +97,9 @@ def handleRead (mode hex : String) (impl : List String) : String :=
       let nt := if bs.length ≥ 16 then "1" else "0"
       if implS == rS then (if rG == rS then s!"OK cls={cls} nt={nt}" else "CORR clause=gm.gen_tables")
       else if mode == "wf" then s!"VIOL clause=gm.read spec={rS.take 3000}"
+      else if mode == "trunc" ∧ rS == "err" ∧ impl.head? = some "ok" then
+        -- a well-formed stream cut short (not between two top-level elements) was accepted
+        "VIOL clause=gm.truncated_accepted"
       else s!"CORR clause=gm.read_mut model={rS.take 400}"
 
 /-! ### walk -/
